@@ -208,6 +208,11 @@ func runLoopScenario(t *testing.T, sc *loopScenario) *loopRun {
 					peers[op.Arg].Send([]byte(`{"jsonrpc":"2.0","method":"slow"}`))
 					peers[op.Arg].Send([]byte(`{"jsonrpc":"2.0","method":"slow"}`))
 				}
+			case "slowbatch": // ONE batch of two notifications whose handlers wait for the gate
+				if op.Arg < len(peers) {
+					r.logf("slowbatch %d", op.Arg)
+					peers[op.Arg].Send([]byte(`[{"jsonrpc":"2.0","method":"slow"},{"jsonrpc":"2.0","method":"slow"}]`))
+				}
 			case "opengate":
 				openGate()
 			case "cancel":
@@ -618,7 +623,7 @@ func TestC20(t *testing.T) {
 		logs = append(logs, r.Log)
 		ins = append(ins, in)
 	}
-	kinds := []string{"connect", "connect", "connectbroken", "connectsendfail", "connectfail", "slownotes", "opengate", "clientclose", "cancel", "call", "acceptfail", "acceptclosing", "connect+closing", "acceptfaileof", "acceptfaileofbare", "acceptclosingwrapped"}
+	kinds := []string{"connect", "connect", "connectbroken", "connectsendfail", "connectfail", "slownotes", "slowbatch", "opengate", "clientclose", "cancel", "call", "acceptfail", "acceptclosing", "connect+closing", "acceptfaileof", "acceptfaileofbare", "acceptclosingwrapped"}
 	for i := 0; i < pick(400, 4000); i++ {
 		sc := &loopScenario{}
 		n := 1 + rng.Intn(7)
@@ -626,7 +631,7 @@ func TestC20(t *testing.T) {
 		for j := 0; j < n; j++ {
 			k := kinds[rng.Intn(len(kinds))]
 			op := loopOp{Kind: k}
-			if k == "clientclose" || k == "call" || k == "slownotes" {
+			if k == "clientclose" || k == "call" || k == "slownotes" || k == "slowbatch" {
 				if conns == 0 {
 					continue
 				}
@@ -663,6 +668,8 @@ func TestC20(t *testing.T) {
 		{Ops: []loopOp{{Kind: "connect"}, {Kind: "slownotes", Arg: 0}, {Kind: "clientclose", Arg: 0}, {Kind: "opengate"}, {Kind: "acceptclosing"}}},
 		{Ops: []loopOp{{Kind: "connect"}, {Kind: "connect"}, {Kind: "slownotes", Arg: 1}, {Kind: "cancel"}, {Kind: "opengate"}}},
 		{Ops: []loopOp{{Kind: "connect"}, {Kind: "slownotes", Arg: 0}, {Kind: "acceptclosing"}}},
+		{Ops: []loopOp{{Kind: "connect"}, {Kind: "slowbatch", Arg: 0}, {Kind: "clientclose", Arg: 0}, {Kind: "opengate"}, {Kind: "acceptclosing"}}},
+		{Ops: []loopOp{{Kind: "connect"}, {Kind: "slowbatch", Arg: 0}, {Kind: "cancel"}, {Kind: "opengate"}}},
 		// a connection that lost one reply in transport is stopped and finished like the others
 		{Ops: []loopOp{{Kind: "connectsendfail"}, {Kind: "call", Arg: 0}, {Kind: "cancel"}}},
 		{Ops: []loopOp{{Kind: "connectsendfail"}, {Kind: "connect"}, {Kind: "clientclose", Arg: 0}, {Kind: "acceptclosing"}}},
